@@ -4,7 +4,7 @@
 From Coq Require Import List ZArith QArith Bool.
 From PV Require Import lib.Sx lib.Str lib.Result model.GenScc model.SccTime model.SccStash model.SccDecoder model.SccPopon model.SccRollPaint.
 From PV Require Import spec.SpecSccTime.
-From PV Require Import proofs.SccStashFacts proofs.SccItalicsFacts proofs.SccDoubleFacts proofs.SccConserveFacts proofs.SccRollPaintFacts.
+From PV Require Import proofs.SccStashFacts proofs.SccItalicsFacts proofs.SccDoubleFacts proofs.SccConserveFacts proofs.SccRollPaintFacts proofs.SccConserveExtFacts.
 Import ListNotations.
 Open Scope Z_scope.
 
@@ -21,6 +21,26 @@ Theorem C16_rollup_painton_conserved : forall off tc0 w0 ws0 ls caps,
   nonspace (caps_text caps) = nonspace (sent_lines (rstate0 off) ((tc0, w0 :: ws0) :: ls)).
 Proof. exact rollup_painton_conserved. Qed.
 Print Assumptions C16_rollup_painton_conserved.
+
+(* The same for the WIDER alphabet with extended characters, backspace and Erase-Displayed-Memory: the text of the returned
+   captions is the result of the explicit edit script `sentx_text` (proofs/SccConserveExtFacts.v): a character word appends,
+   an extended character erases the last character of the ACTIVE buffer unless that is itself an extended character (or the
+   buffer is empty) and appends, a backspace erases one character, a flush closes the buffer; doubled codes count once *)
+Theorem C16_rollup_painton_conserved_ext : forall off tc0 w0 ws0 ls caps,
+  (w0 = w_ru2 \/ w0 = w_ru3 \/ w0 = w_ru4 \/ w0 = w_rdc) ->
+  forallb rpb_word ws0 = true -> forallb (fun l => forallb rpb_word (snd l)) ls = true ->
+  read off ((tc0, w0 :: ws0) :: ls) = ROk caps ->
+  nonspace (caps_text caps) = nonspace (sentx_text (rstate0 off) ((tc0, w0 :: ws0) :: ls)).
+Proof. exact rollup_painton_conserved_ext. Qed.
+Print Assumptions C16_rollup_painton_conserved_ext.
+(* a mid-row code changes nothing but blanks (at most one, at the end of the active buffer's text) *)
+Theorem C16_rpx_step_mid : forall s w next, rp_inv s -> memz w scc_mid_row_codes = true -> r_err s = None ->
+  let s' := translate_word s w next in
+  stash_text (r_stash s') = stash_text (r_stash s) /\
+  (content (buf s') = content (buf s) \/ content (buf s') = content (buf s) ++ [32]) /\
+  nonspace (content (buf s')) = nonspace (content (buf s)) /\ rp_inv s'.
+Proof. exact rpx_step_mid. Qed.
+Print Assumptions C16_rpx_step_mid.
 
 (* the step invariant behind it: one word of the alphabet adds exactly its characters to (stored captions ++ buffer) *)
 Theorem C16_rp_step : forall s w next, rp_inv s -> rp_word w = true -> r_err s = None ->
@@ -67,6 +87,20 @@ Theorem C16_ends_meet : forall t0 evs pending l, rp_positive t0 evs ->
   forall i a b, nth_error l i = Some a -> nth_error l (S i) = Some b -> snd a = fst b.
 Proof. exact rp_chain_ends_meet. Qed.
 Print Assumptions C16_ends_meet.
+
+(* t0 = 0 is allowed (a stream that starts at 00:00:00:00), and INCREASING instants give what the statement says about order:
+   start < end for every caption, strictly increasing starts, each caption ends exactly when the next begins. (rp_read is an
+   event-level model: it is tied to the reader by execution - request 1602 vs the implementation - not by a theorem.) *)
+Theorem C16_timing_chain_nonneg : forall t0 evs pending, rp_nonneg t0 evs ->
+  rp_read t0 evs pending = rp_expected_all t0 evs pending.
+Proof. exact rp_chain_all_nonneg. Qed.
+Print Assumptions C16_timing_chain_nonneg.
+Theorem C16_timing_chain_ordered : forall t0 evs pending l, rp_nonneg t0 evs -> increasing t0 (map rp_time evs) ->
+  rp_read t0 evs pending = Ok l ->
+  Forall (fun p => (fst p < snd p)%Q) l /\
+  (forall i a b, nth_error l i = Some a -> nth_error l (S i) = Some b -> (fst a < fst b)%Q /\ snd a = fst b).
+Proof. exact rp_chain_ordered. Qed.
+Print Assumptions C16_timing_chain_ordered.
 
 (* non-vacuity: a roll-up stream  RU2 CR PAC "ab" / CR PAC "cd"  read by the model *)
 Example C16_example :
